@@ -34,10 +34,11 @@ def into_check(target, k, cap):
     return check
 
 
-def h(ty, target, src, n, t, c, owners, counts, k, cap, unwind=None):
+def h(ty, target, src, n, t, c, owners, counts, k, cap, unwind=None, drainer=0):
     tag = f"{target}_pre{k}_cap{cap}"
     uw = unwind or (34 if (ty == "M" and (target == "split" or src in ("iterf", "sched"))) else None)
-    return collect_harness("c06", "collect_into", ty, src, n, t, c, owners, counts, check=into_check(target, k, cap), tag=tag, unwind=uw)
+    return collect_harness("c06", "collect_into", ty, src, n, t, c, owners, counts, check=into_check(target, k, cap), tag=tag, unwind=uw,
+                           drainer=drainer)
 
 
 def harnesses(tier, seed):
@@ -57,7 +58,8 @@ def harnesses(tier, seed):
         for target in ("vec", "fixed", "split"):
             for t in (1, 2):
                 for (k, cap_q) in ((0, 0), (1, 4)):
-                    hs.append(h("M", target, "iterf", n, t, 1, None, ones, k, max(cap_q, k + n) if target == "fixed" else cap_q))
+                    hs.append(h("M", target, "iterf", n, t, 1, None, ones, k, max(cap_q, k + n) if target == "fixed" else cap_q,
+                                drainer=(1 if (t == 2 and k == 1) else 0)))
         # the same bridge with the source handed out by every owner table (iterator-backed source under the schedule model)
         for target in ("vec", "fixed", "split"):
             for owners in owner_tables(2, 2, 1):
@@ -66,7 +68,7 @@ def harnesses(tier, seed):
         for ty, counts in (("MF", (1, 1)), ("FMF", (0, 1)), ("FLF", (2, 1))):
             for target in ("vec", "fixed", "split"):
                 hs.append(h(ty, target, "slice", n, 2, 1, [1, 0], counts, 1, 8))
-            hs.append(h(ty, "vec", "iterf", n, 2, 1, None, counts, 1, 8))
+            hs.append(h(ty, "vec", "iterf", n, 2, 1, None, counts, 1, 8, drainer=1))
             hs.append(h(ty, "vec", "slice", n, 1, 1, None, counts, 2, 2))
     else:
         light, heavy = [], []
